@@ -52,7 +52,9 @@ def fallthrough (T : Tabs) (isData : Bytes → Bool) (e a : Bytes) : Option Cx :
       | some s => if allowedElem T e then some s else none
       | none => none
 
-def relHit (T : Tabs) (rel : Bytes) : Bool := (Model.Tmpl.fields rel).any fun v => T.relVals.contains v
+/-- every rel value is a plain-URL relation (and there is at least one) -/
+def relHit (T : Tabs) (rel : Bytes) : Bool :=
+  !(Model.Tmpl.fields rel).isEmpty && (Model.Tmpl.fields rel).all fun v => T.relVals.contains v
 
 def linkB : Bytes := [108, 105, 110, 107]
 def hrefB : Bytes := [104, 114, 101, 102]
